@@ -14,6 +14,10 @@ CHECKS = {
          "from_timestamp is run on every representable day (several seconds of day and nanosecond fields each), every second of the day on boundary dates, and the full product of the seconds lattice (range ends, i64-nanosecond window ends, integer lattice, day-number alias classes) with sub-unit remainders for ms/us/ns; accept/refuse and every field/read-back accessor are compared with the reference; Utc.timestamp_* and SystemTime conversions are compared too.",
          "Trusted: RefCal closed forms (cross-checked in C01). Counts between lattice points rely on euclidean division being uniform between the carries the lattice brackets.",
          "DESIGN.md §4 C02"),
+ 'C03': ("history exploration to depth 2 over boundary seeds x the duration alphabet (checked and operator forms, distance back after every step), exhaustive sweep of all dates x fixed day steps, iterators driven to exhaustion at both range ends, all against i128 instants",
+         "Every (seed, duration) pair of the complete boundary product is executed on NaiveDateTime, DateTime<FixedOffset> (several offsets) and NaiveDate, and from the instants reached again (depth 2); after each step b+(a-b)=a, the exact distance and the order are checked; all 191,491,529 dates are stepped by fixed day counts; day/week iterators are checked item by item with their size_hint until they end at the range limits.",
+         "Trusted: i128 instant arithmetic on RefCal day numbers. Durations between alphabet members rely on uniformity between bracketed carries.",
+         "DESIGN.md §4 C03"),
  'C06': ("complete product of duration boundary lattices under every constructor/operation, then closure to depth 2 over the operations, every value compared with an exact i128 nanosecond model",
          "All pairs of a ~270-value lattice x {checked_add, checked_sub, +, -, cmp, Sum} and x every i32-lattice multiplier/divisor; every returned value is observed through all accessors, neg, abs, to_std and Display (parsed back by an independent reader); the values reached are used again as operands (depth 2), so non-lattice values are explored too. The range invariant is asserted on every value ever returned.",
          "Trusted: i128 arithmetic. Float accessors are not judged.",
